@@ -316,3 +316,23 @@ Lemma permanent_stops_reach sm es0 d es :
   m_conns s' = S (m_conns s) /\ m_estab s' = m_estab s /\
   (m_phase s' = MDead \/ m_phase s' = MReturned).
 Proof. intros s P. apply permanent_stops; [apply reachable_inv|exact P]. Qed.
+
+(* a cut inside the TLS handshake is retried, a failure of the authentication after which
+   the server hangs up ends the loop: from the same reachable retrying state *)
+Lemma handshake_cut_retried_hangup_final sm es0 es :
+  let s := m_run repaired (m_init sm) es0 in
+  m_phase s = MRetry ->
+  (let s1 := m_step repaired s (EAttempt handshake_cut) in
+   m_phase s1 = MRetry /\ m_loops s1 = 1 /\ m_sessions s1 = m_sessions s /\ is_noise (EAttempt handshake_cut) = true) /\
+  (let s2 := m_run repaired s (EAttempt rejected_then_hung_up :: es) in
+   m_sessions s2 = m_sessions s /\ m_post s2 = m_post s /\ m_conns s2 = S (m_conns s) /\
+   (m_phase s2 = MDead \/ m_phase s2 = MReturned)).
+Proof.
+  intros s P. split.
+  - destruct (noise_step s (EAttempt handshake_cut) (reachable_inv sm es0) P eq_refl) as (A1 & A2 & _).
+    cbn zeta. repeat split; try assumption.
+    destruct (reach_one_loop sm (es0 ++ [EAttempt handshake_cut])) as [_ H].
+    unfold m_run in H. rewrite fold_left_app in H. cbn [fold_left] in H. apply H. exact A1.
+  - destruct (permanent_stops_reach sm es0 false es P) as (B1 & B2 & _ & B4 & _ & B6).
+    cbn zeta. repeat split; assumption.
+Qed.
